@@ -47,6 +47,7 @@ EXTENDS MultiPassGuards, Json, SequencesExt
 CONSTANTS
     Catalogs, Limits, Daemons, Batches, Laters,   \* scenario scope (sets of ids)
     MaxRounds, MaxClaims, MaxSteps,
+    AllowForeign,        \* whether another controller may store a NodeClaim inside a batching window (FALSE restricts the exhaustive run)
     Resyncs,             \* whether a delivered pass may end with a NodeClaim-only re-delivery (history only: the order of informer events)
     W_SyncBeforeBatch,   \* the Synced gate is evaluated before the batching window instead of after it
     EphForms, StForms,   \* forms of the ephemeral / startup taints on a node that appears (history only: same taints to Kubernetes)
@@ -213,7 +214,7 @@ PassStart(d, rs, fp) ==
         nn == IF fg THEN nc + 1 ELSE nc
         \* the gate sees the foreign NodeClaim (CreateNodeClaims seeds cluster state) - unless it was evaluated before the window
         syn == IF W_SyncBeforeBatch THEN SyncedOn(cc0, nc) ELSE SyncedOn(cc, nn)
-    IN /\ More /\ rounds < MaxRounds /\ (rs => d) /\ (fg => d /\ ForeignOK(fp))
+    IN /\ More /\ rounds < MaxRounds /\ (rs => d) /\ (fg => AllowForeign /\ d /\ ForeignOK(fp))
        /\ (~d => Stale \/ rst)    \* a pass without delivery is only interesting when something is not launched / not known to be launched
        /\ cl' = cc /\ nc' = nn /\ rounds' = rounds + 1 /\ fgn' = (fgn \/ fg) /\ rst' = FALSE
        /\ home' = IF fg THEN [home EXCEPT ![fp] = nc + 1] ELSE home
